@@ -73,3 +73,18 @@ func HarnessC10Residue() {
 	vassert("C10.residue", r == 0)
 	vreach("C10.residue.end")
 }
+
+// HarnessC10Sparse: messages of n bytes that are zero except for 4 arbitrary bytes at offset off, from an arbitrary
+// state: one call equals byte-wise feeding. (Zero runs and words equal to the running state are where block-wise
+// implementations take shortcuts; with 64 symbolic bits the query stays within reach of the solver.)
+func HarnessC10Sparse(n, off int) {
+	s := vnondetU32()
+	m := make([]byte, n)
+	copy(m[off:], vnondetBytes(4))
+	t := s
+	for _, b := range m {
+		t = updateCRC32(t, []byte{b})
+	}
+	vassert("C10.sparse", t == updateCRC32(s, m))
+	vreach("C10.sparse.end")
+}
